@@ -384,6 +384,7 @@ func C16Scenarios() []sched.Scenario {
 			{name: "W||Iterate", doc: "writer || full iteration", scripts: [][]mop{{{'I', "0a1d", "x"}, {'D', "1c00", ""}}, {{'T', "", ""}}}},
 			{name: "R||R-missing-node", doc: "two readers running into the same node that is absent from the store", dropNode: "0b22", scripts: [][]mop{{{'G', "0b22", ""}}, {{'G', "0b22", ""}, {'H', "", ""}}}},
 			{name: "Merge||Merge", doc: "two sibling transaction tries opened on the same root are merged concurrently: exactly one merge may succeed", scripts: [][]mop{{{'M', "0a1d", "x"}, {'G', "0a1d", ""}}, {{'M', "0a2b", "z"}, {'G', "0a2b", ""}}}},
+			{name: "Iterate||Iterate", doc: "two full iterations at the same time (read-only users of one trie): each handler sees every path with its own value", scripts: [][]mop{{{'T', "", ""}}, {{'T', "", ""}, {'G', "1c00", ""}}}},
 			{name: "W||GetChanges", doc: "writer || GetChanges (root, changes and deletes of one instant)", scripts: [][]mop{{{'I', "0a1d", "x"}, {'D', "0b22", ""}}, {{'X', "", ""}}}},
 			{name: "W||GetChanges-kept", doc: "a writer rewriting keys (the change set does not grow) || a reader that keeps the sets GetChanges returned while it asks again: what was returned stays what it was", scripts: [][]mop{{{'I', "0a1b", "x"}, {'X', "", ""}, {'I', "0a1b", "y"}}, {{'X', "", ""}, {'X', "", ""}}}},
 			{name: "W||change-count", doc: "writer || GetChangeCount", scripts: [][]mop{{{'I', "0a1d", "x"}, {'I', "0a1e", "y"}}, {{'C', "", ""}, {'C', "", ""}}}},
